@@ -5,7 +5,7 @@ import json, os, re, shutil, sys
 out, results = sys.argv[1], sys.argv[2:]
 for rf in results:
     for line in open(rf):
-        m = re.match(r"(C\d+-\w) demo_clean_rc=(\d+) build_rc=(\d+) demo_patched_rc=(\d+) suite:\[(.*)\]", line.strip())
+        m = re.match(r"(C\d+-\w+) demo_clean_rc=(\d+) build_rc=(\d+) demo_patched_rc=(\d+) suite:\[(.*)\]", line.strip())
         if not m:
             print("skip:", line.strip()); continue
         sid, clean, build, patched, suite = m.groups()
